@@ -153,22 +153,23 @@ func (op *c12Op) isPost() bool {
 func (op *c12Op) temporal() bool { return op.Kind == "t-add-chain" || op.Kind == "t-add-pre-chain" }
 
 type c12World struct {
-	ls      *kernel.Lockstep // spec C12lock: statement-level interleaving of the calls sharing the client
-	pool    bool             // spec C12lock: deterministic LIFO pools (lockstep build, runtime quiet)
-	s       *kernel.Sim
-	prof    c12Profile
-	pki     *pki
-	logKey  *oracle.Key
-	logID   [32]byte
-	log     *refLog
-	subs    []*submission // submissions available to add-chain ops (not in the log)
-	lc      *client.LogClient
-	ctx     context.Context
-	cancel  context.CancelFunc
-	ops     []*c12Op
-	byName  map[string]*c12Op
-	started int
-	sctTS   uint64
+	entriesOnly bool             // spec C07client: only the entry-fetching methods and the decoders
+	ls          *kernel.Lockstep // spec C12lock: statement-level interleaving of the calls sharing the client
+	pool        bool             // spec C12lock: deterministic LIFO pools (lockstep build, runtime quiet)
+	s           *kernel.Sim
+	prof        c12Profile
+	pki         *pki
+	logKey      *oracle.Key
+	logID       [32]byte
+	log         *refLog
+	subs        []*submission // submissions available to add-chain ops (not in the log)
+	lc          *client.LogClient
+	ctx         context.Context
+	cancel      context.CancelFunc
+	ops         []*c12Op
+	byName      map[string]*c12Op
+	started     int
+	sctTS       uint64
 
 	// temporal (sharded) client: shard 0 = the log above at /sim, shard 1 = a second key at /sim2;
 	// certificates whose NotAfter is below shardEdge go to shard 0
@@ -229,6 +230,12 @@ func endpointOf(path string) string {
 
 func newC12() kernel.World { return &c12World{} }
 
+// newC07Client: spec C07client (registered under C07, whose last clause - "decoding a served entry with the library's
+// entry parser recovers the submitted certificate or precertificate, its chain, the entry type and the timestamp" - is
+// anchored in client/getentries.go): the C12 world with every call going to GetEntries / GetRawEntries /
+// GetEntryAndProof / the decoders, against the same byzantine-or-honest log server and with the same oracle.
+func newC07Client() kernel.World { return &c12World{entriesOnly: true} }
+
 // newC12Lock: spec C12lock - the C12 workload and oracle on the lockstep build of jsonclient / client: the 1-3 calls
 // that share the client are interleaved by the driver between any two statements and at every lock (what one call
 // keeps in the shared client between two of its own statements can be met by another call's answer), and every
@@ -276,7 +283,13 @@ func (w *c12World) Init(s *kernel.Sim) {
 		}
 	}
 
-	if t.Chance(1, 4) {
+	if w.entriesOnly {
+		for i, k := range c12Kinds {
+			if k != "get-raw-entries" && k != "get-entries" && k != "get-entry-and-proof" && k != "decode" {
+				p.KindW[i] = 0
+			}
+		}
+	} else if t.Chance(1, 4) {
 		// method focus: nearly every call of the run goes to one method, so that whatever that method keeps between
 		// calls (a memo, a pooled buffer, a cursor) sees a long sequence of good, bad and odd answers in a row
 		p.KindW[t.Intn(len(c12Kinds))] = 40
@@ -695,11 +708,26 @@ func (w *c12World) Options(s *kernel.Sim) []kernel.Option {
 	all := s.ParkedCalls()
 	var parked []*kernel.Parked // calls waiting at the transport
 	heldRoots := map[string]bool{}
+	var atEOF []*kernel.Parked // calls whose body has arrived and whose end of stream the driver still holds back
 	for _, p := range all {
-		if kernel.IsLockSeam(p.Name) {
+		switch {
+		case kernel.IsLockSeam(p.Name):
 			heldRoots[kernel.RootOf(p.Party)] = true
-		} else {
+		case p.Name == "rt.eof":
+			atEOF = append(atEOF, p)
+		default:
 			parked = append(parked, p)
+		}
+	}
+	for _, p := range atEOF {
+		p := p
+		opts = append(opts, s.ReleaseOpt(p, kernel.Decision{Kind: "ok"}, 4))
+		if op := w.byName[p.Party]; op != nil && s.FaultsOn() && !op.cancelled && op.cancel != nil && !heldRoots[op.Party] {
+			opts = append(opts, kernel.Option{Key: "caller gives up at " + p.Key, Weight: 6, Apply: func() {
+				op.cancelled = true
+				s.Fault("cancel.at-eof")
+				op.cancel()
+			}})
 		}
 	}
 	if w.ls != nil {
